@@ -44,7 +44,7 @@ type c17Scenario struct {
 	ID      int
 	DelayMs int
 	TxBuf   bool
-	Modem   bool // a transport that queues writes and transmits later (reports its whole queue as transmit buffer)
+	Modem   bool           // a transport that queues writes and transmits later (reports its whole queue as transmit buffer)
 	Sizes   map[string]int // MID -> compressed size
 	AtoB    []string       // MIDs offered by A
 	BtoA    []string
@@ -146,7 +146,7 @@ func (m *modemConn) Write(b []byte) (int, error) {
 	m.mu.Unlock()
 	return len(b), nil
 }
-func (m *modemConn) Close() error { m.Flush(); return m.memConn.Close() }
+func (m *modemConn) Close() error     { m.Flush(); return m.memConn.Close() }
 func (m *modemConn) TxBufferLen() int { m.mu.Lock(); defer m.mu.Unlock(); return len(m.queue) }
 func (m *modemConn) Flush() error {
 	m.mu.Lock()
@@ -160,7 +160,7 @@ func (m *modemConn) Flush() error {
 type pacedTxConn struct{ *pacedConn }
 
 func (c pacedTxConn) TxBufferLen() int { c.mu.Lock(); defer c.mu.Unlock(); return c.last / 2 }
-func (c pacedTxConn) Flush() error      { return nil }
+func (c pacedTxConn) Flush() error     { return nil }
 
 func c17Child(args []string) {
 	seed, _ := strconv.ParseInt(args[0], 10, 64)
@@ -176,7 +176,7 @@ func c17Child(args []string) {
 		}
 		mk := func(from string) (msgs []*fbb.Message, mids []string) {
 			for k := r.Intn(3); k >= 0; k-- {
-				mid := fmt.Sprintf("S%dM%s", i, r.Mid())
+				mid := fmt.Sprintf("S%d%s%dM%s", i, from[2:3], k, r.Mid()) // distinct within the scenario
 				m := fbb.NewMessage(fbb.Private, from)
 				m.Header.Set("Mid", mid)
 				m.AddTo("N0CALL")
